@@ -10,7 +10,7 @@ NAMES_RESERVED = ["and", "or", "not", "in", "true", "false", "null", "nil", "non
 NAMES_DIGITS = ["0", "1", "2", "01", "10", "-1", "+1", " 1", "1_0", "１", "1e0", "0x1", "12345678901234567890", "1\n", "0\n", "\n1", "1 ", "1\r", "-7\n", "1\t", "00", "\u00b2", "\u2460", "\u2082\u2083", "\u0663", "\u00bd",
                 "9007199254740991", "-9007199254740991", "-1000000000000000", "1000000000000000", "-999999999999999", "9007199254740992", "-9007199254740992",
                 # an ASCII digit followed by decimal digits of other scripts (and the all-ASCII number they would spell)
-                "1\uff12", "12", "1\u0663", "13", "-1\uff12", "-12", "2\u0660\u0661"]
+                "-0", "-00", "1\uff12", "12", "1\u0663", "13", "-1\uff12", "-12", "2\u0660\u0661"]
 NAMES_PUNCT = ["", "~", "/", "~1", "~0", "a/b", "m~n", "#", "#a", "#0", "-", "a-b", "$", "@", "*", ".", "..", "[", "]", "a b", " ", "?", ",", ":", "(", "|", "&", "^"]
 NAMES_QUOTE = ["'", '"', "\\", "a\\", "\\'", '\\"', "a'b", 'a"b', "\\\\", "\\n", "\\u0041", "\\uD83D", "\\uD83D\\uDE00", "x\\udc00", "\\ud800\\n", "\\x41", "\\U0001F600", "\\/", "\\u{41}", "\\u{1F600}", "\\N{BULLET}", "\\8", "\\400"]
 NAMES_CTRL = ["\n", "\t", "\r", "\b", "\f", "\u0000", "\u001f", "\u007f", "a\nb"]
@@ -401,7 +401,7 @@ def filter_doc(r, names, strings, depth=0):
 # ---------------------------------------------------------------- documented extensions (C13)
 
 MEM_LEAVES = ["a", "b", "ab", "xaby", "", "v1", 2, 3, 10, None, 2.5]
-CTX_DEFAULT = {"k": 2, "s": "xaby", "list": ["a", 2, None, "v1"], "o": {"a": 1, "b": {"k": 3}}, "n": None, "names": ["a", "b"], "t": ["number"], "types": {"number": 1}}
+CTX_DEFAULT = {"max$": 1, "max_": 2, "$": "x", "k": 2, "s": "xaby", "list": ["a", 2, None, "v1"], "o": {"a": 1, "b": {"k": 3}}, "n": None, "names": ["a", "b"], "t": ["number"], "types": {"number": 1}}
 
 
 class ExtFilterGen(FilterGen):
